@@ -204,8 +204,8 @@ func cmdCheck(args []string) int {
 				reports = append(reports, rep)
 				groupReports = append(groupReports, rep)
 				if *verbose {
-					fmt.Fprintf(os.Stderr, "%s/%s: paths=%d completed=%d forks=%d viol=%d incon=%d q(feas=%d assert=%d sat=%d unsat=%d unk=%d cache=%d syn=%d oneshot=%d) solver=%s wall=%s\n",
-						rep.Harness, en, rr.Paths, rr.Completed, rr.Forks, len(rr.Violations), len(rr.Inconclusive), rr.QFeas, rr.QAssert, rr.QSat, rr.QUnsat, rr.QUnknown, rr.CacheHits, rr.SynHits, rr.OneShot, rr.SolverTime.Round(time.Millisecond), rr.Wall.Round(time.Millisecond))
+					fmt.Fprintf(os.Stderr, "%s/%s: paths=%d completed=%d forks=%d viol=%d incon=%d q(feas=%d assert=%d sat=%d unsat=%d unk=%d cache=%d syn=%d oneshot=%d alt=%d) solver=%s wall=%s\n",
+						rep.Harness, en, rr.Paths, rr.Completed, rr.Forks, len(rr.Violations), len(rr.Inconclusive), rr.QFeas, rr.QAssert, rr.QSat, rr.QUnsat, rr.QUnknown, rr.CacheHits, rr.SynHits, rr.OneShot, rr.AltSolver, rr.SolverTime.Round(time.Millisecond), rr.Wall.Round(time.Millisecond))
 					for _, s := range rr.Inconclusive {
 						fmt.Fprintln(os.Stderr, "   inconclusive:", s)
 					}
@@ -289,6 +289,7 @@ func verdict(prop, tier string, seed int, reports []*entryReport, broken []strin
 		queries["answered_from_model_cache"] += rr.CacheHits
 		queries["answered_syntactically_from_path_condition"] += rr.SynHits
 		queries["escalated_to_one_shot_solving"] += rr.OneShot
+		queries["escalated_to_second_solver_family"] += rr.AltSolver
 		for _, f := range r.Funcs {
 			funcs[f] = true
 		}
@@ -503,7 +504,7 @@ func solversUsed(reports []*entryReport) []string {
 		s := string(r.Solver)
 		if !seen[s] {
 			seen[s] = true
-			out = append(out, s+" (persistent process, push/pop)")
+			out = append(out, s+" (persistent process, push/pop; one-shot escalation; second family on unknown: z3-new <-> cvc5 --solve-bv-as-int=sum)")
 		}
 	}
 	return out
